@@ -8,6 +8,7 @@ mod s_codec;
 mod nodes;
 mod s_registry;
 mod s_retain;
+mod s_json;
 
 #[global_allocator]
 static GLOBAL: alloc::Counting = alloc::Counting;
@@ -90,6 +91,7 @@ fn main() {
                 "codec" => s_codec::replay_codec(line, &mut out),
                 "registry" => s_registry::replay_registry(line, &mut out),
                 "retain" => s_retain::replay_retain(line, &mut out),
+                "json" => s_json::replay_json(line, &mut out),
                 s => Err(format!("no replay for stream {s}")),
             };
             if let Err(e) = r {
@@ -107,6 +109,7 @@ fn main() {
         "codec" => s_codec::codec(&mut rng, n, thorough, &mut out),
         "registry" => s_registry::registry(&mut rng, n, thorough, &mut out),
         "retain" => s_retain::retain(&mut rng, n, thorough, &mut out),
+        "json" => s_json::json_stream(&mut rng, n, thorough, &mut out),
         s => {
             eprintln!("unknown stream {s}");
             std::process::exit(2)
